@@ -210,6 +210,17 @@ pub fn execute_q(c: &CaseSpec, quick: bool) -> (Outcome, usize, usize) {
                 }
             } else {
                 run_frames(&mut e, if quick && !loaded { 1 } else { 2 });
+                if loaded && matches!(c.entry, Entry::Sna | Entry::Szx | Entry::GzSna) {
+                    // the restored machine must also survive the program touching the devices the
+                    // file configured: AY select/data/read-back, paging, ULA, Kempston/mouse ports
+                    let prog: [u8; 38] = [
+                        0xF3, 0x01, 0xFD, 0xFF, 0xED, 0x78, 0x01, 0xFD, 0xBF, 0xED, 0x79, 0x01, 0xFD, 0xFF, 0xED, 0x79, 0xED, 0x78, 0x01, 0xFD, 0x7F, 0xED, 0x78, 0x01, 0xFE, 0x00, 0xED, 0x78, 0x01, 0xDF, 0xFB, 0xED, 0x78, 0xDB, 0x1F,
+                        0x18, 0xFE, 0x00,
+                    ];
+                    rig::poke(&mut e, 0x8000, &prog);
+                    e.verif_cpu().regs.set_pc(0x8000);
+                    run_frames(&mut e, 1);
+                }
             }
         }));
         if let Err(p) = post {
